@@ -96,7 +96,7 @@ class Explorer:
             if c.target:
                 self.by_target[c.target] = c
         self.invariants = invariants
-        self.types = TypeParser(index, ['fpy2.number', 'fpy2.utils', 'fpy2', 'fpy2.ast', 'fpy2.analysis'])
+        self.types = TypeParser(index, ['fpy2.number', 'fpy2.utils', 'fpy2', 'fpy2.ast', 'fpy2.analysis', 'spec.c02'])
         self.intrinsics = Intrinsics(self)
         self.global_cache = {}
         self.tags = Tags()
@@ -183,6 +183,8 @@ class Explorer:
                 kw[n] = bound[n]
             elif extra and n in extra:
                 kw[n] = extra[n]
+            elif n == 'self':
+                kw[n] = None          # contract of a plain function / lemma: `self` is unused
             else:
                 raise InterpError(f'{fn.qualname}: contract parameter {n} not among target parameters {list(bound)}')
         try:
